@@ -16,6 +16,8 @@ pub struct Style {
     pub subject_to: bool,
     pub tight: bool, // fewer spaces
     pub decimal_points: bool, // integral literals sometimes written 3.0
+    pub computed_consts: bool, // where-constants written as a - b / a + b with an integer and a decimal
+    pub short_domains: bool,   // Real(lo) / NonNegativeReal(lo) when the upper bound is infinite
 }
 
 impl Style {
@@ -30,6 +32,8 @@ impl Style {
             subject_to: rng.gen_bool(0.2),
             tight: rng.gen_bool(0.2),
             decimal_points: rng.gen_bool(0.25),
+            computed_consts: rng.gen_bool(0.4),
+            short_domains: rng.gen_bool(0.5),
         }
     }
     pub fn plain() -> Style {
@@ -43,6 +47,8 @@ impl Style {
             subject_to: false,
             tight: false,
             decimal_points: false,
+            computed_consts: false,
+            short_domains: false,
         }
     }
 }
@@ -277,7 +283,18 @@ pub fn model_text_ex(m: &M, rng: &mut ChaCha8Rng, style: Style, omit_where: bool
     if !pr.consts.is_empty() && !omit_where {
         out.push_str("where\n");
         for (n, v) in &pr.consts {
-            out.push_str(&format!("    let {n} = {}\n", num_text(*v)));
+            // dyadic values can be written exactly as integer - decimal or integer + decimal
+            let quarter = (*v * 4.0).fract() == 0.0 && v.fract() != 0.0 && *v < 1e6;
+            if pr.style.computed_consts && quarter && pr.rng.gen_bool(0.6) {
+                let up = v.ceil();
+                if pr.rng.gen_bool(0.5) {
+                    out.push_str(&format!("    let {n} = {} - {}\n", num_text(up + 1.0), num_text(up + 1.0 - *v)));
+                } else {
+                    out.push_str(&format!("    let {n} = {} + {}\n", num_text(v.floor()), num_text(*v - v.floor())));
+                }
+            } else {
+                out.push_str(&format!("    let {n} = {}\n", num_text(*v)));
+            }
         }
     }
     out.push_str("define\n");
@@ -290,7 +307,12 @@ pub fn model_text_ex(m: &M, rng: &mut ChaCha8Rng, style: Style, omit_where: bool
             group.push(m.names[j].clone());
             j += 1;
         }
-        out.push_str(&format!("    {} as {}\n", group.join(", "), type_text(&m.types[i])));
+        let ty = match &m.types[i] {
+            VT::Real(lo, hi) if pr.style.short_domains && lo.is_finite() && *hi == f64::INFINITY => format!("Real({})", if *lo < 0.0 { format!("-{}", num_text(*lo)) } else { num_text(*lo) }),
+            VT::NonNeg(lo, hi) if pr.style.short_domains && *lo > 0.0 && *hi == f64::INFINITY => format!("NonNegativeReal({})", num_text(*lo)),
+            t => type_text(t),
+        };
+        out.push_str(&format!("    {} as {}\n", group.join(", "), ty));
         i = j;
     }
     let consts = pr.consts.clone();
